@@ -207,6 +207,7 @@ def run(ctx):
                 filled_requests(ctx, client, ident, rident, I0)
     flavour_probe(ctx)
     special_shapes(ctx)
+    derived_and_separator(ctx)
     answers = ctx.driver.ask(reqs)
     for ans, (meta, got, exp) in zip(answers, metas):
         model = SM.py_canon_model(ans)
@@ -302,6 +303,50 @@ def special_shapes(ctx):
             ctx.fail("the object created under a name shared by an element and a type does not fit the parameter "
                      "declared with the element (filled object and equivalent dict differ)", meta, env1.decode(),
                      env2.decode(), kind="special")
+
+
+def derived_and_separator(ctx):
+    """More shapes outside the family: a type derived by RESTRICTION that re-declares an inherited attribute with a
+    new default (the derived declaration wins), an enumeration type that only aliases another one (every inherited
+    value exposed), and the path separator: after factory.separator('/') a name containing '.' is a plain name and
+    '/' walks the members."""
+    T = "{%s}" % wsdlkit.TNS
+    schema = ('<xsd:simpleType name="Color"><xsd:restriction base="xsd:string"><xsd:enumeration value="red"/>'
+              '<xsd:enumeration value="green"/><xsd:enumeration value="blue"/></xsd:restriction></xsd:simpleType>'
+              '<xsd:simpleType name="Shade"><xsd:restriction base="x:Color"/></xsd:simpleType>'
+              '<xsd:simpleType name="Short"><xsd:restriction base="x:Color"><xsd:maxLength value="5"/></xsd:restriction>'
+              '</xsd:simpleType>'
+              '<xsd:complexType name="Base"><xsd:sequence><xsd:element name="a" type="xsd:string"/></xsd:sequence>'
+              '<xsd:attribute name="k" type="xsd:string" default="7"/><xsd:attribute name="j" type="xsd:string" '
+              'default="1"/></xsd:complexType>'
+              '<xsd:complexType name="R"><xsd:complexContent><xsd:restriction base="x:Base"><xsd:sequence>'
+              '<xsd:element name="a" type="xsd:string"/></xsd:sequence><xsd:attribute name="k" type="xsd:string" '
+              'default="9"/></xsd:restriction></xsd:complexContent></xsd:complexType>'
+              '<xsd:complexType name="Order.Part"><xsd:sequence><xsd:element name="p" type="xsd:string"/></xsd:sequence>'
+              '</xsd:complexType><xsd:complexType name="Order"><xsd:sequence><xsd:element name="Part" type="x:R"/>'
+              '</xsd:sequence></xsd:complexType><xsd:element name="f"><xsd:complexType><xsd:sequence>'
+              '<xsd:element name="o" type="x:Order"/></xsd:sequence></xsd:complexType></xsd:element>')
+    client = wsdlkit.client(wsdlkit.wsdl_doc(schema, "f", None), nosend=True)
+    r_obj = {"__class__": "R", "a": None, "_k": "9", "_j": "1"}
+    want = [("Shade", {"__class__": T + "Shade", "red": "red", "green": "green", "blue": "blue"}),
+            ("Short", {"__class__": T + "Short", "red": "red", "green": "green", "blue": "blue"}),
+            ("Base", {"__class__": "Base", "a": None, "_k": "7", "_j": "1"}), ("R", r_obj),
+            ("Order", {"__class__": "Order", "Part": r_obj}), ("Order.Part", r_obj)]
+    after = [("Order.Part", {"__class__": "Order.Part", "p": None}), ("Order/Part", r_obj),
+             ("Order", {"__class__": "Order", "Part": r_obj})]
+    for phase, names in (("separator '.'", want), ("separator '/'", after)):
+        if phase.endswith("'/'"):
+            client.factory.separator("/")
+        for name, exp in names:
+            meta = {"stream": "derived-and-separator", "phase": phase, "name": name}
+            ctx.case(common.canon(meta), True)
+            try:
+                got = K.normal(client.factory.create(T + name))
+            except Exception as e:
+                got = "%s: %s" % (type(e).__name__, e)
+            if not (isinstance(got, dict) and K.same_value(reorder_attrs(got), reorder_attrs(exp))):
+                ctx.fail("factory object does not mirror the type's content model", meta, repr(got), repr(exp),
+                         kind="special")
 
 
 def blank_attrs(x):
